@@ -81,7 +81,8 @@ class Ctx:
     def n(self, quick: int, thorough: int) -> int:
         """Case budget for this process (thorough budgets are divided over shards)."""
         if self.quick:
-            return quick
+            qs = os.environ.get("SPV_QUICK_SCALE")           # the environment pass runs the quick workload with smaller random parts
+            return max(1, int(quick * float(qs))) if qs else quick
         return max(1, int(thorough * self.scale) // self.shard[1])
 
     def mine(self, i: int) -> bool:
@@ -131,6 +132,8 @@ class Ctx:
             v = self.violations[sig] = {"signature": sig, "count": 0, "witnesses": []}
         v["count"] += 1
         if len(v["witnesses"]) < MAX_WITNESS_PER_SIG:
+            if os.environ.get("SPV_ENVPASS"):
+                witness = dict(witness, observed_in_environment=os.environ["SPV_ENVPASS"])
             v["witnesses"].append({"case": jsonable(case), **{k: jsonable(x) for k, x in witness.items()}})
         return False
 
